@@ -15,7 +15,7 @@
 \*            The loop table below is transcribed from parser.c; hook H6 records the real iterations and
 \*            FrontEndTrace.tla checks them against the same discipline.
 \*  "enum"    Every token-class string up to MaxLen over the 14 classes that matter for recovery; the
-\*            harness places each in 6 syntactic contexts (table Contexts, emitted with the strings).
+\*            harness places each in 7 syntactic contexts (table Contexts, emitted with the strings).
 \*  "derive"  A grammar of the core language as derivation actions (a leftmost pushdown derivation that
 \*            produces concrete tokens) followed by mutation actions Drop Dup Swap Insert Truncate Nest
 \*            BadByte UntermString UntermComment.  Run with -simulate; every behaviour ends in Finish,
@@ -33,7 +33,7 @@ CONSTANTS Mode,        \* "cursor" | "enum" | "derive"
 Classes == <<"(", ")", "{", "}", "id", "num", "op", "else", "fn", "shadow", "let", "assert", ",", "EOF">>
 ClassSet == {Classes[i] : i \in 1..Len(Classes)}
 ASSUME Cardinality(ClassSet) = 14
-\* how the harness spells a class, and the six contexts a string is placed in ("@" is the hole; a class
+\* how the harness spells a class, and the seven contexts a string is placed in ("@" is the hole; a class
 \* string containing EOF is cut there together with the rest of the context)
 Conc == [lp |-> "(", rp |-> ")", lb |-> "{", rb |-> "}", id |-> "a", num |-> "1", op |-> "+", else |-> "else",
          fn |-> "fn", shadow |-> "shadow", let |-> "let", assert |-> "assert", comma |-> ","]
@@ -42,6 +42,7 @@ Contexts == [top      |-> "fn f(a: int) -> int { return a }\n@\nfn main() -> int
              shadow   |-> "fn f(a: int) -> int { return a }\nshadow f {\n@\n}\nfn main() -> int { return (f 1) }\n",
              callargs |-> "fn f(a: int) -> int { return (f\n@\n) }\nfn main() -> int { return (f 1) }\n",
              arraylit |-> "fn f(a: int) -> int { let v: array<int> = [\n@\n]\nreturn a }\nfn main() -> int { return (f 1) }\n",
+             unsafeblk |-> "fn f(a: int) -> int { unsafe {\n@\n}\nreturn a }\nfn main() -> int { return (f 1) }\n",
              structlit |-> "struct P { a: int }\nfn f(a: int) -> int { let p: P = P { a:\n@\n}\nreturn a }\nfn main() -> int { return (f 1) }\n"]
 
 VARIABLES toks,     \* the token string (classes in cursor/enum mode, concrete tokens in derive mode)
